@@ -20,8 +20,6 @@ beanquery code involved): row counts and every cell are compared, by (type, valu
 
 Weakest readings (property silent or ambiguous -> both behaviours accepted):
   * any_meta(k) with k explicitly NULL on the posting: NULL or the transaction's value;
-  * any_meta(k) on a posting without metadata: NULL ("NULL for postings without metadata") or the
-    transaction's value ("posting-then-transaction");
   * cost_label of a posting without cost: NULL or '';
   * filename / lineno / location of a posting row: the posting's or the transaction's line (NULL too when the
     posting has no metadata); location is 'filename:lineno' with or without a trailing colon;
@@ -482,7 +480,7 @@ def run(ctx):
         'samples': acc.samples[:6],
     }
     return Result(cov, acc.violations, assumptions=[
-        'any_meta(k) with k explicitly NULL on the posting, or on a posting without metadata: NULL or the transaction value',
+        'any_meta(k) with k explicitly NULL on the posting: NULL or the transaction value (on a posting without metadata the property demands NULL)',
         "cost_label without cost: NULL or ''",
         'filename/lineno/location of a posting row: the posting line or the transaction line (NULL too without posting metadata)',
         'description: starts with payee, ends with narration; equals the only one present',
